@@ -177,8 +177,12 @@ def ising_simulated_annealing(h, J, beta_range=None, num_sweeps=1000):
         raise ValueError("'sweeps' should be a positive int")
 
     # We want the schedule to be linear in beta (inverse temperature)
-    betas = [beta_init + i * (beta_final - beta_init) / (num_sweeps - 1.)
-             for i in range(num_sweeps)]
+    if num_sweeps == 1:
+        # a single sweep, the schedule is its first point (as numpy.linspace)
+        betas = [beta_init]
+    else:
+        betas = [beta_init + i * (beta_final - beta_init) / (num_sweeps - 1.)
+                 for i in range(num_sweeps)]
 
     # set up the adjacency matrix. We can rely on every node in J already being in h
     adj = {n: set() for n in h}
